@@ -1090,7 +1090,10 @@ def install_stubs(E):
 
             def call(*a, **kw):
                 if kw or not all(isinstance(x, (int, str, bool, tuple)) or x is None for x in a):
-                    raise Unsupported("memoised function called with symbolic or unhashable arguments")
+                    # symbolic arguments: the memo table cannot be keyed; memoised functions are taken to be pure,
+                    # so calling through is equivalent (recorded as an assumption)
+                    E_.assumptions_used.add("lru_cache-pure")
+                    return E_.call(fn, list(a), dict(kw))
                 E_.commit()
                 if a not in table:
                     table[a] = E_.call(fn, list(a), {})
